@@ -43,3 +43,4 @@ def rules(ctx):
     S.relocation_content_rules(ctx)
     S.tree_root_update_rules(ctx)
     S.survey2_rules(ctx)
+    S.oldest_search_rules(ctx)
